@@ -287,6 +287,23 @@ class History:
                 await u.inbox[idx].put(("stop",))
 
 
+_BFS_CHECK = None
+
+
+def _bfs_init(cid: str) -> None:
+    global _BFS_CHECK
+    import gc
+    import importlib
+
+    gc.disable()
+    _BFS_CHECK = importlib.import_module(f"vk.checks.{cid.lower()}").CHECK
+
+
+def _bfs_batch(arg: tuple) -> list:
+    hists, want_enabled = arg
+    return _BFS_CHECK._exec_batch(hists, want_enabled)
+
+
 class CtxCheck:
     """Base of the E2 checks; subclasses define ``aspects``, ``enabled`` and the depth per tier."""
 
@@ -307,7 +324,9 @@ class CtxCheck:
         return [[]]
 
     def units(self, tier: str, seed: int) -> list:
-        return [{"prefix": s} for s in self.seeds(tier)]
+        # one BFS over all seed prefixes, with ONE global set of seen states; the runner executes this unit in the master
+        # process, which parallelises every BFS level over its own worker pool (see work_main)
+        return [{"_main": True, "bfs": True}]
 
     def max_states(self, tier: str) -> int:
         return 60000 if tier == "quick" else 600000
@@ -336,54 +355,71 @@ class CtxCheck:
         raise RuntimeError("no results")
 
     def work(self, unit: dict, tier: str) -> dict:
+        return self.work_main(unit, tier)
+
+    def work_main(self, unit: dict, tier: str, jobs: int = 16) -> dict:
+        """Level-synchronous BFS from all seed prefixes with a global seen-set; each level's frontier is replayed in parallel."""
+        import multiprocessing as mp
+        import os
+
         s = new_summary()
         seen: set = set()
-        frontier: list[list] = [list(unit["prefix"])]
         depth = self.depth(tier)
+        frontier: list[tuple] = [(list(sd), depth) for sd in self.seeds(tier)]
         per_level = []
         kh: dict[str, int] = {}
         cap = self.max_states(tier)
-        nonmut = 0
-        for level in range(depth + 1):
-            nxt: list[list] = []
-            B = 64
-            for i in range(0, len(frontier), B):
-                batch = frontier[i:i + B]
-                results = self._exec_batch(batch, want_enabled=level < depth)
-                for hist, r in zip(batch, results):
-                    s["evaluations"] += 1
-                    s["transitions"] += 1 if hist else 0
-                    key = (r["model_key"], r["impl_key"])
-                    if r["fails"]:
-                        for f in {f[0] for f in r["fails"]}:
-                            kh[f] = kh.get(f, 0) + 1
-                        if len(s["violations"]) < 4:
-                            s["violations"].append({
-                                "keys": sorted({f[0] for f in r["fails"]}), "fails": [list(f) for f in r["fails"][:5]],
-                                "program": {"history": _plain(hist)}, "choices": [], "trace": [], "outcome": "done",
-                            })
-                        continue  # do not extend violating states
-                    if key in seen:
-                        nonmut += 1
-                        continue
-                    seen.add(key)
-                    if len(seen) >= cap:
-                        s["capped"] = True
-                    if level < depth and not s["capped"]:
-                        for op in r["enabled"]:
-                            nxt.append(hist + [op])
-                    if len(s["samples"]) < 2 and len(hist) >= min(depth, 3):
-                        s["samples"].append({"history": _plain(hist), "model_state": repr(r["model_key"])[:600]})
-            per_level.append(len(frontier))
-            frontier = nxt
-            if not frontier:
-                break
+        merged = 0
+        jobs = int(os.environ.get("VERIF_JOBS", "0")) or min(jobs, os.cpu_count() or 1)
+        ctx = mp.get_context("fork")
+        pool = ctx.Pool(jobs, initializer=_bfs_init, initargs=(self.id,)) if jobs > 1 else None
+        try:
+            while frontier:
+                B = 48
+                chunks = [frontier[i:i + B] for i in range(0, len(frontier), B)]
+                args = [([h for h, _ in ch], True) for ch in chunks]
+                if pool is not None:
+                    outs = pool.map(_bfs_batch, args)
+                else:
+                    outs = [self._exec_batch(a[0], a[1]) for a in args]
+                nxt: list[tuple] = []
+                for ch, results in zip(chunks, outs):
+                    for (hist, left), r in zip(ch, results):
+                        s["evaluations"] += 1
+                        s["transitions"] += 1
+                        key = (r["model_key"], r["impl_key"])
+                        if r["fails"]:
+                            for f in {f[0] for f in r["fails"]}:
+                                kh[f] = kh.get(f, 0) + 1
+                            if len(s["violations"]) < 8:
+                                s["violations"].append({
+                                    "keys": sorted({f[0] for f in r["fails"]}), "fails": [list(f) for f in r["fails"][:5]],
+                                    "program": {"history": _plain(hist)}, "choices": [], "trace": [], "outcome": "done",
+                                })
+                            continue  # violating states are not extended
+                        if key in seen:
+                            merged += 1
+                            continue
+                        seen.add(key)
+                        if len(seen) >= cap:
+                            s["capped"] = True
+                        if left > 0 and not s["capped"]:
+                            for op in r["enabled"]:
+                                nxt.append((hist + [op], left - 1))
+                        if len(s["samples"]) < 2 and len(hist) >= 5:
+                            s["samples"].append({"history": _plain(hist), "model_state": repr(r["model_key"])[:600]})
+                per_level.append(len(frontier))
+                frontier = nxt
+        finally:
+            if pool is not None:
+                pool.close()
+                pool.join()
         s["states"] = len(seen)
         s["distinct"] = len(seen)
         s["nontrivial"] = len(seen)
         s["outcomes"] = {"done": s["evaluations"]}
         s["keyhist"] = kh
-        s["extra"] = {"merged_into_known_state": nonmut, "depth": depth}
+        s["extra"] = {"merged_into_known_state": merged, "depth": depth}
         s["frontiers"] = per_level
         return s
 
